@@ -342,6 +342,49 @@ def h11c2_pre(which, remove):
     return 0 <= which < 7
 
 
+def h11c3(store: int, mutate: int, ttl: int) -> bool:
+    """A committed version does not alias objects the caller handed to the writer: mutating the caller's own Rdataset / RRset after the
+    commit changes neither an open reader's view nor the version a new reader gets."""
+    kind = S("zone")
+    z = make_zone(kind)
+    name = dns.name.from_text("www", None) if store != 1 else dns.name.from_text("fresh", None)
+    rds = dns.rdataset.from_text("IN", "A", 300, "10.9.9.1", "10.9.9.2")
+    rrs = dns.rrset.from_text_list(name, 300, "IN", "A", ["10.9.9.1", "10.9.9.2"])
+    mine = rrs if store == 2 else rds
+    with z.writer() as w:
+        if store == 0:
+            w.replace(name, rds)
+        elif store == 1:
+            w.add(name, rds)
+        else:
+            w.replace(rrs)
+    r = z.reader()
+    before = r.get(name, dns.rdatatype.A)
+    want = (before.ttl, sorted([x.to_text() for x in before]))
+    hit("committed")
+    extra = dns.rdata.from_text("IN", "A", "10.9.9.3")
+    if mutate == 0:
+        mine.add(extra)
+    elif mutate == 1:
+        mine.update_ttl(ttl)
+    elif mutate == 2:
+        mine.discard(mine[0])
+    elif mutate == 3:
+        mine.clear()
+    else:
+        mine.union_update(dns.rdataset.from_text("IN", "A", 300, "10.9.9.4"))
+    now = r.get(name, dns.rdatatype.A)
+    if now is None or (now.ttl, sorted([x.to_text() for x in now])) != want:
+        return False
+    r2 = z.reader()
+    again = r2.get(name, dns.rdatatype.A)
+    return again is not None and (again.ttl, sorted([x.to_text() for x in again])) == want
+
+
+def h11c3_pre(store, mutate, ttl):
+    return 0 <= store <= 2 and 0 <= mutate <= 4 and 0 <= ttl <= 1000 and (mutate == 1 or ttl == 0)
+
+
 HARNESSES = [
     Harness("H11a", h11a, h11a_pre, h11a_shards, kind="finite selection of events, exhaustive",
             encodes=["dns.versioned.Zone.reader", "dns.versioned.Zone._prune_versions_unlocked", "dns.versioned.Zone.set_max_versions",
@@ -359,6 +402,12 @@ HARNESSES = [
             encodes=["dns.zone.ImmutableVersion.__init__", "dns.zone.ImmutableVersionedNode", "dns.rdataset.ImmutableRdataset", "dns.immutable.Dict"],
             bound="26 mutators reachable from a reader (transaction, version, node map, node, rdataset, rdata, name) x 0..2 commits after the reader opened",
             stubs=["E6"], outside="attributes not in the list"),
+    Harness("H11c3", h11c3, h11c3_pre, lambda tier: [{"zone": z, "_timeout": 600, "_path_timeout": 60} for z in ("versioned", "btree")],
+            kind="finite selection, exhaustive (TTL symbolic)",
+            encodes=["dns.zone.ImmutableVersion.__init__", "dns.zone.ImmutableVersionedNode.__init__", "dns.rdataset.ImmutableRdataset.__init__",
+                     "dns.node.Node.replace_rdataset", "dns.transaction.Transaction._add"],
+            bound="an Rdataset / RRset object stored by replace() or by add() on a new name, committed, then mutated by its owner (add, update_ttl with a symbolic TTL, discard, clear, union_update): the open reader and a new reader still see the committed content",
+            stubs=["E6"], outside="other ways of keeping a reference to a stored object"),
     Harness("H11c2", h11c2, h11c2_pre, lambda tier: [{"zone": z, "_timeout": 600, "_path_timeout": 60} for z in ("versioned", "btree")],
             kind="enumeration carried on the solver's paths",
             encodes=["dns.btreezone.WritableVersion.update_glue_flag", "dns.btreezone.ImmutableVersion.__init__", "dns.zone.ImmutableVersion.__init__"],
